@@ -528,13 +528,18 @@ theorem fact_entry_structure :
     Facts.C11.primaryKeys = ["credentialIssuerRecord.SubjectID", "credentialRecord.SubjectID",
       "revocationRecord.StatusListCredential", "revocationRecord.StatusListIndex"] := by decide
 
+/-- `Revoke` and `Credential` read the revocations of the list (`Preload("Revocations")`) on the transaction handle, after
+    `lockCredentialRecord`: this is what makes the model's atomic `revoke` / `credential` (whose only reads before the
+    transaction decide between "serve the stored list" and "re-issue") a faithful description -/
 theorem fact_revoke_and_credential_structure :
     Facts.C11.revokeConds = ["entry.StatusPurpose != StatusPurposeRevocation", "!cs.isManaged(entry.StatusListCredential)",
       "errors.Is(err,gorm.ErrDuplicatedKey)", "statusListIndex < 0 || statusListIndex > issuerRecord.LastIssuedIndex"] ∧
-    Facts.C11.revokeCalls = ["cs.db.Transaction", "lockCredentialRecord", "tx.Create", "cs.updateCredential", "tx.Clauses().Create"] ∧
+    Facts.C11.revokeCalls = ["cs.db.Transaction", "lockCredentialRecord", "tx.Create", "tx.Preload().First", "tx.Preload",
+      "cs.updateCredential", "tx.Clauses().Create"] ∧
     Facts.C11.credentialConds = ["!cs.isManaged(statusListCredentialURL)",
       "err == nil && time.Now().Add(minTimeUntilExpired).Before(time.Unix(*credRecord.Expires,0))"] ∧
-    Facts.C11.credentialCalls = ["cs.loadCredential", "cs.db.Transaction", "lockCredentialRecord", "cs.updateCredential", "tx.Clauses().Create"] ∧
+    Facts.C11.credentialCalls = ["cs.isManaged", "cs.loadCredential", "cs.db.Transaction", "lockCredentialRecord", "tx.Preload().First",
+      "tx.Preload", "cs.updateCredential", "tx.Clauses().Create"] ∧
     Facts.C11.signValidity = ["iss := time.Now()", "exp := iss.Add(statusListValidity)"] := by decide
 
 set_option maxRecDepth 100000 in
